@@ -93,6 +93,17 @@ CHECKS["C17"] = dict(
    note=TB + "Bases-per-line of single-line records is not determined by the file and is not compared; the contig name is the first word of the header.",
    technique="TLA+ layout/arithmetic model checked by TLC over all small files and intervals; every configuration replayed on real files",
    design="6/C17")
+CHECKS["C18"] = dict(
+   text="spec/Numbers.tla represents an integer as (sign, canonical digit string) - value and canonical text at once - defines parsing "
+        "with optional sign and leading zeros, comma-joined lists and the structure of float text; MC_C18 grows a batch one element at a "
+        "time in three modes (format: 10^k-2..10^k+2 for k<=18 and the int64 extremes; parse: every digit string of length <=3/4 over "
+        "{0,1,7,9} with optional sign; float texts) and checks the action property RowsIndependent. Every batch is replayed through "
+        "ints_to_strings, int_lists_to_strings, str_to_int (also twice on the same argument, and as the integer columns of a delimited "
+        "file read lazily and eagerly), split, str_to_float, float_to_strings.",
+   note=TB + "TLA+ has no reals: whether a double is within a few ulp (taken as <=8) of the exact decimal value is computed by the projection "
+        "with Fraction. The float format->parse round trip is a recorded known finding (parser accurate to ~2 ulp, not correctly rounded).",
+   technique="TLA+ digit-string model + TLC enumeration of batches replayed into code; exact rational arithmetic for the ulp clause",
+   design="6/C18")
 PENDING = {}
 def main():
     props = [json.loads(l)["id"] for l in open(os.path.join(HERE, "properties.jsonl"))]
